@@ -4,6 +4,7 @@
 -/
 import FalconProofs.C15.Copy
 import FalconProofs.C15.MergeRound
+import FalconProofs.C15.AppendView
 
 namespace Falcon.C15
 open Falcon Falcon.CfgEdit
@@ -104,6 +105,88 @@ theorem merge_preserves_paths {c : Cfg} (hw : WF c) (h : (merge c).res = .ok ())
 theorem merge_selects_valid_pairs {c : Cfg} {ms : List (Nat × Nat)} (h : collect c c.blocks [] = .ok ms) :
     (∀ p ∈ ms, ValidPair c p.1 p.2) ∧ DisjointPairs ms :=
   ⟨fun p hp => ((collect_valid _ _ _ h).1 p hp).1, (collect_valid _ _ _ h).2⟩
+
+/-- **append_paths** — on well-formed graphs a successful `append` runs the first graph and then the second: the
+    complete entry→exit runs of the result are exactly the concatenations of an entry→exit run of `c` and an
+    entry→exit run of `d` (the unconditional transition edge spells nothing); appended to the empty graph, the
+    runs are those of `d`. -/
+theorem append_paths {c d c' : Cfg} (hw : WF c) (hd : WF d) (h : CfgEdit.append c d = ⟨c', .ok ()⟩) (w : List Sym) :
+    LangEE c' w ↔ if c.blocks = [] then LangEE d w else ∃ u v, w = u ++ v ∧ LangEE c u ∧ LangEE d v := by
+  obtain ⟨f, den, dex, A⟩ := append_view hw hd h
+  have G := A.glue
+  by_cases hemp : c.blocks = []
+  · simp only [hemp, if_true]
+    obtain ⟨hen, _⟩ := A.empty hemp
+    constructor
+    · rintro ⟨en, ex, h1, h2, hwalk⟩
+      rw [hen] at h1; rw [A.exit] at h2
+      cases h1; cases h2
+      exact ⟨den, dex, A.dentry, A.dexit, (langEE_copy G A.dentry A.dexit w).mp hwalk⟩
+    · rintro ⟨en, ex, h1, h2, hwalk⟩
+      rw [A.dentry] at h1; rw [A.dexit] at h2
+      cases h1; cases h2
+      exact ⟨_, _, hen, A.exit, (langEE_copy G A.dentry A.dexit w).mpr hwalk⟩
+  · simp only [hemp, if_false]
+    obtain ⟨cen, cex, hcen, hcex, hen', T⟩ := A.nonempty hemp
+    obtain ⟨bx, hbx, hbxi⟩ := (hasBlock_iff d _).mp (hd.exitOk dex A.dexit)
+    constructor
+    · rintro ⟨en, ex, h1, h2, hwalk⟩
+      rw [hen'] at h1; rw [A.exit] at h2
+      cases h1; cases h2
+      obtain ⟨u, v, rfl, hu, hv⟩ := walk_split G T hwalk (old_index_lt hw (hw.entryOk _ hcen))
+        (by rw [← hbxi]; exact G.fresh bx hbx)
+      exact ⟨u, v, rfl, ⟨cen, cex, hcen, hcex, hu⟩, ⟨den, dex, A.dentry, A.dexit, (langEE_copy G A.dentry A.dexit v).mp hv⟩⟩
+    · rintro ⟨u, v, rfl, ⟨en1, ex1, h1, h2, hu⟩, ⟨en2, ex2, h3, h4, hv⟩⟩
+      rw [hcen] at h1; rw [hcex] at h2; rw [A.dentry] at h3; rw [A.dexit] at h4
+      cases h1; cases h2; cases h3; cases h4
+      exact ⟨cen, _, hen', A.exit, walk_join G T hu (walk_copy G hv)⟩
+
+/-- appending to the empty graph is the identity up to the renumbering `f` of block indices -/
+theorem append_empty_iso {c d c' : Cfg} (hw : WF c) (hd : WF d) (h : CfgEdit.append c d = ⟨c', .ok ()⟩)
+    (hemp : c.blocks = []) :
+    ∃ f : Nat → Nat, (∀ b1 ∈ d.blocks, ∀ b2 ∈ d.blocks, f b1.index = f b2.index → b1.index = b2.index) ∧
+      (∀ x, x ∈ c'.blocks ↔ ∃ b ∈ d.blocks, x = copyBlock f b) ∧
+      (∀ e, e ∈ c'.edges ↔ ∃ e0 ∈ d.edges, e = copyEdge f e0) ∧
+      c'.entry = d.entry.map f ∧ c'.exit = d.exit.map f := by
+  obtain ⟨f, den, dex, A⟩ := append_view hw hd h
+  obtain ⟨hen, hed⟩ := A.empty hemp
+  refine ⟨f, A.glue.inj, ?_, hed, by rw [hen, A.dentry]; rfl, by rw [A.exit, A.dexit]; rfl⟩
+  intro x
+  rw [A.glue.blocks x, hemp]
+  simp
+
+/-- **insert_disjoint** — a successful `insert` adds a copy of `d` that is isomorphic to `d` under an injective
+    renumbering `f` into fresh indices (≥ the old `next_index`, hence disjoint from every old block), returns the
+    images of `d`'s entry and exit, leaves the old blocks and edges untouched, and clears entry and exit. -/
+theorem insert_disjoint {c d c' : Cfg} {en ex : Nat} (hd : WF d) (h : CfgEdit.insert c d = ⟨c', .ok (en, ex)⟩) :
+    ∃ f : Nat → Nat,
+      (∀ x, x ∈ c'.blocks ↔ x ∈ c.blocks ∨ ∃ b ∈ d.blocks, x = copyBlock f b) ∧
+      (∀ e, e ∈ c'.edges ↔ e ∈ c.edges ∨ ∃ e0 ∈ d.edges, e = copyEdge f e0) ∧
+      (∀ b ∈ d.blocks, c.nextIndex ≤ f b.index) ∧
+      (∀ b1 ∈ d.blocks, ∀ b2 ∈ d.blocks, f b1.index = f b2.index → b1.index = b2.index) ∧
+      d.entry.map f = some en ∧ d.exit.map f = some ex ∧ c'.entry = none ∧ c'.exit = none := by
+  unfold CfgEdit.insert at h
+  split at h
+  · rename_i dEntry dExit hden hdex
+    dsimp only at h
+    split at h
+    · rename_i c1 m hcb
+      split at h
+      · rename_i c2 hce
+        obtain ⟨V, hen2, hex2, hlook⟩ := copy_view hd hcb hce
+        obtain ⟨be, hbe, hbei⟩ := (hasBlock_iff d _).mp (hd.entryOk dEntry hden)
+        obtain ⟨bx, hbx, hbxi⟩ := (hasBlock_iff d _).mp (hd.exitOk dExit hdex)
+        have hlen : m.lookup dEntry = some (renameOf m dEntry) := by rw [← hbei]; exact hlook be hbe
+        have hlex : m.lookup dExit = some (renameOf m dExit) := by rw [← hbxi]; exact hlook bx hbx
+        rw [hlen, hlex] at h
+        simp only [Step.mk.injEq, Res.ok.injEq, Prod.mk.injEq] at h
+        obtain ⟨rfl, rfl, rfl⟩ := h
+        exact ⟨renameOf m, V.blocks, V.edges, V.fresh, V.inj, by rw [hden]; rfl, by rw [hdex]; rfl, hen2, hex2⟩
+      · simp at h
+      · simp at h
+    · simp at h
+    · simp at h
+  · simp at h
 
 /-- non-vacuity: a history with a merge that merges, an append and an insert -/
 example : WF (runAll [.newBlock 0, .newBlock 0, .uedge 0 0 1, .entry 0 0, .exit 0 1, .op 0 1 .nop,
